@@ -9,7 +9,7 @@ import z3
 
 from .values import (EngineError, Seq, DictV, SetV, Opaque, I, R, B, uid, is_z3, is_scalar, to_z3,
                      sort_of, as_int, as_real, as_bool, zand, zor, znot, zimp, zite, type_of, fresh,
-                     fresh_seq, fresh_dict, fresh_set, parse_type, values_equal, key_terms)
+                     fresh_seq, fresh_dict, fresh_set, parse_type, values_equal, key_terms, bvar, mentions_bound)
 from .engine import (Builtin, BoundMethod, Closure, RepoFunction, ModuleRef, SpecFunction, MaybeNone, State)
 
 PY_BUILTINS = {"len", "range", "zip", "enumerate", "int", "float", "bool", "str", "sorted", "set", "list",
@@ -59,7 +59,7 @@ class Lib:
         for a in node.args:
             if isinstance(a, ast.Starred):
                 v = ex.eval(a.value, st)
-                args.append(("*", v))
+                args.append(_StarMark(v))
             else:
                 args.append(ex.eval(a, st))
         kwargs = {}
@@ -70,8 +70,8 @@ class Lib:
         # expand starred arguments of concrete length
         out = []
         for a in args:
-            if isinstance(a, tuple) and len(a) == 2 and a[0] == "*":
-                v = a[1]
+            if isinstance(a, _StarMark):
+                v = a.value
                 if isinstance(v, tuple):
                     out.extend(v)
                 elif isinstance(v, Seq) and v.concrete_len():
@@ -116,12 +116,16 @@ class Lib:
                 vals.append(ex.truth(ex.eval(lam.body, s2)))
                 _carry(st, s2)
             return zand(*vals) if universal else zor(*vals)
-        v = z3.Int(uid(vname))
+        v = bvar(vname)
         s2 = st.fork()
         s2.locals[vname] = v
         rng = zand(ex.cmp_le(lo, v), ex.cmp_lt(v, hi))
         tok = s2.push(rng)
-        body = ex.truth(ex.eval(lam.body, s2))
+        ex.binders += 1
+        try:
+            body = ex.truth(ex.eval(lam.body, s2))
+        finally:
+            ex.binders -= 1
         s2.pop(tok)
         _carry(st, s2, drop=0)
         pats = []
@@ -133,17 +137,21 @@ class Lib:
                 pats = [to_z3(x) for x in (t if isinstance(t, tuple) else (t,))]
         if universal:
             vs, ante, bz = [v], [to_z3(rng)], to_z3(body)
-            # flatten forall i. forall j. ... into one multi-variable quantifier (better triggers)
+            # flatten forall i. forall j. ... into one multi-variable quantifier (better triggers);
+            # an explicit trigger on an inner quantifier is kept for the merged one
             while True:
                 inner = bz
                 extra = []
                 if z3.is_implies(inner) and z3.is_quantifier(inner.arg(1)) and inner.arg(1).is_forall():
                     extra = [inner.arg(0)]
                     inner = inner.arg(1)
-                if z3.is_quantifier(inner) and inner.is_forall() and inner.num_patterns() == 0:
+                if z3.is_quantifier(inner) and inner.is_forall() and (inner.num_patterns() == 0 or not pats):
                     n = inner.num_vars()
-                    ivs = [z3.Const(uid(inner.var_name(i)), inner.var_sort(i)) for i in range(n)]
+                    ivs = [bvar(inner.var_name(i)) for i in range(n)]
                     b2 = z3.substitute_vars(inner.body(), *reversed(ivs))
+                    if inner.num_patterns() > 0:
+                        p0 = z3.substitute_vars(inner.pattern(0), *reversed(ivs))
+                        pats = list(p0.children())
                     vs += ivs
                     ante += extra
                     if z3.is_implies(b2):
@@ -154,6 +162,8 @@ class Lib:
                     continue
                 break
             bodyz = z3.Implies(z3.And(*ante) if len(ante) > 1 else ante[0], bz)
+            if pats and not all(_valid_pattern(p) for p in pats):
+                pats = []
             if pats:
                 return z3.ForAll(vs, bodyz, patterns=[z3.MultiPattern(*pats)] if len(pats) > 1 else pats)
             return z3.ForAll(vs, bodyz)
@@ -163,13 +173,16 @@ class Lib:
     def _quant_int(self, ex, node, st, universal):
         lam = node.args[0]
         names = [a.arg for a in lam.args.args]
-        vs = [z3.Int(uid(n)) for n in names]
+        vs = [bvar(n) for n in names]
         s2 = st.fork()
         for n, v in zip(names, vs):
             s2.locals[n] = v
         body = lam.body
-        # forall_int(lambda s: implies(A, B)): evaluate B under A so that guarded reads are fine
-        bz = to_z3(ex.truth(ex.eval(body, s2)))
+        ex.binders += 1
+        try:
+            bz = to_z3(ex.truth(ex.eval(body, s2)))
+        finally:
+            ex.binders -= 1
         _carry(st, s2)
         return z3.ForAll(vs, bz) if universal else z3.Exists(vs, bz)
 
@@ -200,6 +213,17 @@ class Lib:
         a = ex.truth(ex.eval(node.args[0], st))
         b = ex.truth(ex.eval(node.args[1], st))
         return values_equal(a, b)
+
+    def sf_cut(self, ex, node, st):
+        """Ghost assertion: proved here (obligation), then available as a hypothesis."""
+        saved = ex.checking
+        ex.checking = False
+        try:
+            g = ex.truth(ex.eval(node.args[0], st))
+        finally:
+            ex.checking = saved
+        ex.oblige_and_assume(st, g, "ghost-cut", node, ast.unparse(node.args[0])[:160])
+        return True
 
     def sf_old(self, ex, node, st):
         name = node.args[0].id
@@ -498,14 +522,22 @@ class Lib:
     def all_of(self, ex, st, s):
         if s.concrete_len() and s.n <= 16:
             return zand(*[ex.truth(s.at(k)) for k in range(s.n)])
-        j = z3.Int(uid("a"))
-        return z3.ForAll([j], z3.Implies(z3.And(j >= 0, j < to_z3(s.n)), to_z3(ex.truth(s.at(j)))))
+        j = bvar("a")
+        ex.binders += 1
+        try:
+            return z3.ForAll([j], z3.Implies(z3.And(j >= 0, j < to_z3(s.n)), to_z3(ex.truth(s.at(j)))))
+        finally:
+            ex.binders -= 1
 
     def any_of(self, ex, st, s):
         if s.concrete_len() and s.n <= 16:
             return zor(*[ex.truth(s.at(k)) for k in range(s.n)])
-        j = z3.Int(uid("a"))
-        return z3.Exists([j], z3.And(j >= 0, j < to_z3(s.n), to_z3(ex.truth(s.at(j)))))
+        j = bvar("a")
+        ex.binders += 1
+        try:
+            return z3.Exists([j], z3.And(j >= 0, j < to_z3(s.n), to_z3(ex.truth(s.at(j)))))
+        finally:
+            ex.binders -= 1
 
     def seq_astype(self, ex, st, s, bm, args, kwargs, node):
         return self.convert_seq(ex, s, args[0])
@@ -541,7 +573,7 @@ class Lib:
             return r
         w = z3.Int(uid("argext"))
         st.assume(w >= 0, ex.cmp_lt(w, s.n))
-        j = z3.Int(uid("j"))
+        j = bvar("j")
         m = s.at(w)
         cmpf = ex.cmp_le if lower else ex.cmp_ge
         st.assume(z3.ForAll([j], z3.Implies(z3.And(j >= 0, j < to_z3(s.n)), to_z3(cmpf(key(m), key(s.at(j)))))))
@@ -575,7 +607,7 @@ class Lib:
         c = z3.Function(uid("psum"), I, R if real else I)
         conv = as_real if real else as_int
         n = to_z3(s.n)
-        k = z3.Int(uid("k"))
+        k = bvar("k")
         st.assume(z3.Implies(n >= 1, c(0) == to_z3(conv(s.at(0)))))
         st.assume(z3.ForAll([k], z3.Implies(z3.And(k >= 1, k < n), c(k) == c(k - 1) + to_z3(conv(s.at(k)))), patterns=[c(k)]))
         return c
@@ -587,7 +619,7 @@ class Lib:
         st.pending.append((list(st.pc), znot(mem), "ValueError"))
         st.assume(mem)
         st.assume(w >= 0, ex.cmp_lt(w, s.n), values_equal(s.at(w), x))
-        j = z3.Int(uid("j"))
+        j = bvar("j")
         st.assume(z3.ForAll([j], z3.Implies(z3.And(j >= 0, j < w), z3.Not(to_z3(values_equal(s.at(j), x))))))
         return w
 
@@ -848,11 +880,11 @@ class Lib:
         ks = list(key_terms(k))
         w = wit(*ks)
         st.assume(z3.ForAll(ks, mem(*ks) == z3.And(w >= 0, w < n, to_z3(values_equal(_askey(s.at(w)), k))), patterns=[mem(*ks)]))
-        j = z3.Int(uid("j"))
+        j = bvar("j")
         ej = _askey(s.at(j))
         st.assume(z3.ForAll([j], z3.Implies(z3.And(j >= 0, j < n), mem(*key_terms(ej)))))
         size = z3.Int(uid("setsize"))
-        i2 = z3.Int(uid("i"))
+        i2 = bvar("i")
         distinct = z3.ForAll([j, i2], z3.Implies(z3.And(j >= 0, j < i2, i2 < n), z3.Not(to_z3(values_equal(_askey(s.at(j)), _askey(s.at(i2)))))))
         st.assume(size >= 0, size <= n, z3.Implies(n >= 1, size >= 1), (size == n) == distinct)
         return SetV(lambda kk: mem(*key_terms(kk)), size, kty)
@@ -877,7 +909,7 @@ class Lib:
         u = z3.Function(uid("sorted"), I, I)
         pos = z3.Function(uid("sortpos"), I, I)
         m = to_z3(s.size)
-        j, j2, k = z3.Int(uid("j")), z3.Int(uid("j")), z3.Int(uid("k"))
+        j, j2, k = bvar("j"), bvar("j"), bvar("k")
         st.assume(m >= 0)
         st.assume(z3.ForAll([j], z3.Implies(z3.And(j >= 0, j < m), z3.And(to_z3(s.has(u(j))), pos(u(j)) == j)), patterns=[u(j)]))
         st.assume(z3.ForAll([k], z3.Implies(to_z3(s.has(k)), z3.And(pos(k) >= 0, pos(k) < m, u(pos(k)) == k)), patterns=[pos(k)]))
@@ -892,7 +924,7 @@ class Lib:
         n = to_z3(s.n)
         perm = z3.Function(uid("perm"), I, I)
         inv = z3.Function(uid("perminv"), I, I)
-        j, j2 = z3.Int(uid("j")), z3.Int(uid("j"))
+        j, j2 = bvar("j"), bvar("j")
         st.assume(z3.ForAll([j], z3.Implies(z3.And(j >= 0, j < n), z3.And(perm(j) >= 0, perm(j) < n, inv(perm(j)) == j)), patterns=[perm(j)]))
         st.assume(z3.ForAll([j], z3.Implies(z3.And(j >= 0, j < n), z3.And(inv(j) >= 0, inv(j) < n, perm(inv(j)) == j)), patterns=[inv(j)]))
         r = Seq(s.n, lambda i, s=s: s.at(perm(to_z3(i))), "list")
@@ -939,11 +971,11 @@ class Lib:
         w = wit(*ks)
         keyat = lambda i: _askey(pairs.at(i)[0])
         st.assume(z3.ForAll(ks, dom(*ks) == z3.And(w >= 0, w < n, to_z3(values_equal(keyat(w), k))), patterns=[dom(*ks)]))
-        j = z3.Int(uid("j"))
+        j = bvar("j")
         kj = keyat(j)
         st.assume(z3.ForAll([j], z3.Implies(z3.And(j >= 0, j < n), z3.And(dom(*key_terms(kj)), wit(*key_terms(kj)) >= j))))
         size = z3.Int(uid("dsize"))
-        i2 = z3.Int(uid("i"))
+        i2 = bvar("i")
         distinct = z3.ForAll([j, i2], z3.Implies(z3.And(j >= 0, j < i2, i2 < n), z3.Not(to_z3(values_equal(keyat(j), keyat(i2))))))
         st.assume(size >= 0, size <= n, z3.Implies(n >= 1, size >= 1), (size == n) == distinct)
         return DictV(lambda kk: dom(*key_terms(kk)), lambda kk: pairs.at(wit(*key_terms(kk)))[1], size, kty, vty)
@@ -1032,9 +1064,10 @@ class Lib:
         if isinstance(a.n, int):
             n = max(a.n - 1, 0)
         else:
-            n = z3.If(to_z3(a.n) >= 1, to_z3(a.n) - 1, z3.IntVal(0))
             if ex.implied(st, to_z3(a.n) >= 1):
                 n = a.n - 1
+            else:
+                n = ex.define(st, z3.If(to_z3(a.n) >= 1, to_z3(a.n) - 1, z3.IntVal(0)), "dlen")
         return Seq(n, lambda i, a=a: ex.scalar_binop(ast.Sub(), a.at(i + 1), a.at(i), st, node), "array")
 
     def b_np_cumsum(self, ex, st, args, kwargs, node):
@@ -1114,6 +1147,28 @@ class Lib:
 
     def b_dtype_float(self, ex, st, args, kwargs, node):
         return as_real(args[0])
+
+
+def _valid_pattern(t):
+    if not (z3.is_app(t) and t.decl().kind() == z3.Z3_OP_UNINTERPRETED and t.num_args() > 0):
+        return False
+    bad = {z3.Z3_OP_ITE, z3.Z3_OP_NOT, z3.Z3_OP_AND, z3.Z3_OP_OR, z3.Z3_OP_EQ, z3.Z3_OP_IMPLIES, z3.Z3_OP_LE,
+           z3.Z3_OP_LT, z3.Z3_OP_GE, z3.Z3_OP_GT, z3.Z3_OP_DISTINCT}
+    todo = list(t.children())
+    while todo:
+        x = todo.pop()
+        if z3.is_quantifier(x):
+            return False
+        if z3.is_app(x):
+            if x.decl().kind() in bad:
+                return False
+            todo.extend(x.children())
+    return True
+
+
+class _StarMark:
+    def __init__(self, value):
+        self.value = value
 
 
 class Star:
